@@ -118,7 +118,7 @@ def generate(tier, seed):
     vals = ["new int 5", "new int -3", "new int 9223372036854775807", "new float 4004000000000000", "new float 3ff0000000000000",
             "new float c00c000000000000", "new float 7ff0000000000000", "new str abc", "new str ", "new str é\\nq", "new bool 1", "new bool 0",
             "new nil", "new t", "new sym foo", "new sym :kw", "list 1 2", "cons 1 2", "list"]
-    convs = ["as_int", "try_int", "as_float", "try_float", "as_string", "as_symbol", "i64", "f64", "string", "bool", "opt_i64", "opt_string", "preds"]
+    convs = ["as_int", "try_int", "as_float", "try_float", "as_string", "as_symbol", "i64", "f64", "string", "bool", "opt_i64", "opt_string", "preds", "i64_ref", "f64_ref", "opt_f64"]
     for v in vals:
         lines += ["NEW"] + SETUP + ["API " + v]
         for cv in convs: lines.append("API conv 9 " + cv)
